@@ -2055,6 +2055,7 @@ def state_derivation_histories(ctx: Ctx, n_hist: int):
     try:
         from quri_parts.core.operator import Operator, pauli_label
         from quri_parts.qulacs.circuit import convert_parametric_circuit
+        from quri_parts.qulacs.operator import convert_operator
         from quri_parts.qulacs.estimator import create_qulacs_vector_estimator, create_qulacs_vector_parametric_estimator
         est, pest = create_qulacs_vector_estimator(), create_qulacs_vector_parametric_estimator()
     except Exception:  # noqa: BLE001 - without them the histories are only re-read, not re-used
@@ -2124,16 +2125,30 @@ def state_derivation_histories(ctx: Ctx, n_hist: int):
         par = hasattr(c, "parameter_count") and hasattr(c, "bind_parameters")
         cnt = outcome(lambda: c.parameter_count) if par else 0
         vals = values(cnt) if isinstance(cnt, int) else []
+        # the backend-side object the library keeps inside a compiled circuit and shows through a public property: ALL of it
+        # (gates and the current value of every qulacs parameter) - an estimate / bind must not write into it.  It is read
+        # before the estimate below, so what an estimate leaves behind shows up at the next look
+        def backend(qc_):
+            d_ = [qc_.get_gate_count(), qc_.to_string() if hasattr(qc_, "to_string") else str(qc_)]
+            if hasattr(qc_, "get_parameter_count"):
+                d_.append([float(qc_.get_parameter(k_)) for k_ in range(qc_.get_parameter_count())])
+            return d_
+
         if hasattr(c, "param_mapper"):
             rec["param_mapper(values)"] = outcome(lambda: [float(x) for x in c.param_mapper(vals)])
-            rec["qulacs_circuit"] = outcome(lambda: [c.qulacs_circuit.get_gate_count(), c.qulacs_circuit.get_parameter_count()])
-        elif hasattr(c, "qulacs_circuit"):
-            rec["qulacs_circuit"] = outcome(lambda: [c.qulacs_circuit.get_gate_count()])
+        if hasattr(c, "qulacs_circuit"):
+            rec["qulacs_circuit (gates, parameter values)"] = outcome(lambda: backend(c.qulacs_circuit))
         if par:
             rec["bind_parameters(values)"] = outcome(lambda: [desc(g) for g in circuit_of(o.bind_parameters(vals)).gates])
         if is_state and est is not None:
             op = Operator({pauli_label("Z0"): 1.0, pauli_label(f"X{n - 1}"): 0.5, pauli_label(f"Y0 Z{n - 1}" if n > 1 else "Y0"): -0.25})
             rec["estimate"] = outcome(lambda: complex(pest(op, o, vals).value) if par else complex(est(op, o).value))
+            # a second estimate with other values right away: the first one must not have left anything behind
+            if par and vals:
+                rec["estimate(-values)"] = outcome(lambda: complex(pest(op, o, [-v_ for v_ in vals]).value))
+            rec["converted operator"] = outcome(lambda: (lambda q_: sorted(
+                (tuple(q_.get_term(k_).get_index_list()), tuple(q_.get_term(k_).get_pauli_id_list()), complex(q_.get_term(k_).get_coef()))
+                for k_ in range(q_.get_term_count())))(convert_operator(op, n)))
         return rec
 
     def lit(n):
@@ -2181,7 +2196,8 @@ def state_derivation_histories(ctx: Ctx, n_hist: int):
                 bad = [k_ for k_ in u0 if not close(u0[k_], u1.get(k_))]
                 if bad:
                     ctx.witness("derived-object-use-changes", f"after `{after}` USING the {tag[i]} v{i} gives something else than when it was made "
-                                "(a derived object kept a live tie to a circuit that was mutated later)",
+                                "(a derived object kept a live tie to a circuit that was mutated later, or a call that only returns a new object / an estimate "
+                                "wrote into one of the objects it was given)",
                                 {"calls": log[:], "values": "0.3, -0.6, 0.9, ... (one per parameter)"},
                                 {"object": f"v{i}", "use": bad[0], "when_made": str(u0[bad[0]])[:300], "now": str(u1.get(bad[0]))[:300]})
                     return False
@@ -2446,6 +2462,107 @@ def state_derivation_histories(ctx: Ctx, n_hist: int):
             ctx.extra.setdefault("observations_not_judged", []).append(
                 "GENUINE DEFECT awaiting a known_findings line (key " + KEY_COMPILED + "): cc = compile_circuit(c); s0 = GeneralCircuitQuantumState(2, cc); "
                 "cc.add_X_gate(1) -> s0.circuit.gates == [H, X]: the compiled circuit is a mutable QuantumCircuit whose freeze() returns self")
+
+
+# ---------------------------------------------------------------------------------------------
+# estimates are operations too: requested concurrently (threads) with many distinct parameter sets on one state, every result
+# must be the value for ITS OWN parameters - workers must not share a mutable backend object.  Circuits with a few hundred
+# parametric gates, compiled and not, plain and linear-mapped; judged against (a) the sequential parametric estimator on a
+# state freshly built from a fresh circuit and (b) the bind_parameters + non-parametric estimator path; afterwards the state
+# and what it holds must read and estimate as before.
+# ---------------------------------------------------------------------------------------------
+def concurrent_parametric_checks(ctx: Ctx, n_sets: int):
+    import sys as _sys
+    from concurrent.futures import ThreadPoolExecutor
+
+    import quri_parts.circuit as qc
+    from quri_parts.core.operator import Operator, pauli_label
+    from quri_parts.core.state import ParametricCircuitQuantumState
+    from quri_parts.qulacs.estimator import (create_qulacs_vector_concurrent_parametric_estimator, create_qulacs_vector_estimator,
+                                             create_qulacs_vector_parametric_estimator)
+
+    try:
+        from quri_parts.qulacs.circuit.compiled_circuit import compile_parametric_circuit
+    except Exception:  # noqa: BLE001
+        compile_parametric_circuit = None
+    rng = ctx.rng
+    n, n_gates = 4, 240
+    op = Operator({pauli_label("Z0 Z1"): 1.0, pauli_label("X2"): 0.5, pauli_label("Y0 X3"): -0.25, pauli_label("Z3"): 0.75})
+    layout = [(rng.choice(["RX", "RY", "RZ"]), rng.randrange(n), rng.randrange(3), rng.choice([-2.0, -1.0, 0.5, 1.0, 2.0])) for _ in range(n_gates)]
+    cnots = [tuple(rng.sample(range(n), 2)) for _ in range(n_gates)]
+
+    def build(kind):
+        if kind.endswith("lqc"):
+            c = qc.LinearMappedParametricQuantumCircuit(n)
+            xs = c.add_parameters("a", "b", "c")
+            for (g, q, k_, cf), (u, v) in zip(layout, cnots):
+                getattr(c, f"add_Parametric{g}_gate")(q, {xs[k_]: cf, qc.CONST: 0.1})
+                c.add_CNOT_gate(u, v)
+            cnt = 3
+        else:
+            c = qc.ParametricQuantumCircuit(n)
+            for (g, q, _, _), (u, v) in zip(layout[:60], cnots):
+                getattr(c, f"add_Parametric{g}_gate")(q)
+                c.add_CNOT_gate(u, v)
+            cnt = 60
+        if kind.startswith("compiled"):
+            c = compile_parametric_circuit(c)
+        return ParametricCircuitQuantumState(n, c), cnt
+
+    def run(f):
+        try:
+            return [complex(e.value) for e in f()]
+        except BaseException as e:  # noqa: BLE001
+            if isinstance(e, (KeyboardInterrupt, SystemExit, MemoryError)):
+                raise
+            return "err:" + type(e).__name__
+
+    kinds = ["lqc", "pqc"] + (["compiled lqc", "compiled pqc"] if compile_parametric_circuit is not None else [])
+    old = _sys.getswitchinterval()
+    _sys.setswitchinterval(1e-5)  # many thread switches: a shared backend object does not survive them
+    try:
+        for kind in kinds:
+            state, cnt = build(kind)
+            fresh, _ = build(kind)
+            sets = [[round(rng.uniform(-3, 3), 3) for _ in range(cnt)] for _ in range(n_sets)]
+            seq, nonpar = create_qulacs_vector_parametric_estimator(), create_qulacs_vector_estimator()
+            want = run(lambda: [seq(op, fresh, p_) for p_ in sets])
+            bound = run(lambda: [nonpar(op, fresh.bind_parameters(p_)) for p_ in sets[:8]])
+            ctx.traces += 2
+            if isinstance(want, str) or isinstance(bound, str) or any(abs(x - y) > 1e-8 for x, y in zip(want, bound)):
+                ctx.witness("parametric-estimate-entry-points-differ", "the sequential parametric estimator and bind_parameters + estimator disagree",
+                            {"state": f"ParametricCircuitQuantumState(4, {kind} with {n_gates if 'lqc' in kind else 60} parametric gates)", "parameter_sets": sets[:2]},
+                            {"parametric": str(want)[:200], "bound": str(bound)[:200]})
+                continue
+            for workers, conc in ((4, 4), (3, 8)):
+                with ThreadPoolExecutor(max_workers=workers) as ex:
+                    cest = create_qulacs_vector_concurrent_parametric_estimator(ex, conc)
+                    for _rep in range(2):
+                        got = run(lambda: cest(op, state, sets))
+                        ctx.traces += 1
+                        badi = None if not isinstance(got, str) and len(got) == len(want) else 0
+                        if badi is None:
+                            badi = next((i for i, (x, y) in enumerate(zip(got, want)) if abs(x - y) > 1e-8), None)
+                        if badi is not None:
+                            ctx.witness("concurrent-parametric-estimate", "a concurrently requested estimate is not the value for its own parameters "
+                                        "(sequential estimate on a freshly built equal state differs)",
+                                        {"state": f"ParametricCircuitQuantumState(4, {kind}: {n_gates if 'lqc' in kind else 60} parametric gates alternating with CNOTs)",
+                                         "estimator": f"create_qulacs_vector_concurrent_parametric_estimator(ThreadPoolExecutor({workers}), {conc})",
+                                         "parameter_sets": len(sets), "failing_index": badi, "parameters": sets[badi][:6]},
+                                        {"got": str(got if isinstance(got, str) else got[badi]), "want": str(want[badi])})
+                            break
+                    else:
+                        continue
+                    break
+            # afterwards the state given to all those estimates is what it was: it estimates like the fresh one
+            after = run(lambda: [seq(op, state, p_) for p_ in sets[:4]])
+            ctx.traces += 1
+            if isinstance(after, str) or any(abs(x - y) > 1e-8 for x, y in zip(after, want)):
+                ctx.witness("concurrent-parametric-estimate", "after concurrent estimates the state no longer estimates like an equal fresh state",
+                            {"state": f"ParametricCircuitQuantumState(4, {kind})", "parameters": sets[0][:6]}, {"got": str(after)[:200], "want": str(want[:4])[:200]})
+            ctx.count("concurrent", kind)
+    finally:
+        _sys.setswitchinterval(old)
 
 
 # ---------------------------------------------------------------------------------------------
@@ -2772,6 +2889,7 @@ def run(ctx: Ctx, replay=None) -> int:
             state_ctor_checks(ctx)
             rejected_call_checks(ctx)
             state_derivation_histories(ctx, ctx.n(300, 4000))
+            concurrent_parametric_checks(ctx, ctx.n(48, 400))
             if not ctx.quick():
                 exhaustive(ctx, depth=4, limit=10 ** 6)  # complete: new + 3 operations + observation of every handle
                 exhaustive(ctx, depth=5, limit=10 ** 6, families=("np",))  # the family with the findings: new + 4 operations
